@@ -102,6 +102,8 @@ def cramerv_measure(
 
     # Cramér's V
     cramerv = sqrt(chi2_statistic / n_obs / (min_n_mod - 1))
+    if cramerv > 1:  # rounding of a perfect association
+        cramerv = 1.0
 
     # updating association
     measurement.update({"cramerv_measure": cramerv})
@@ -153,6 +155,8 @@ def tschuprowt_measure(
     tschuprowt = 0
     if dof_mods > 0:
         tschuprowt = sqrt(chi2_statistic / n_obs / dof_mods)
+        if tschuprowt > 1:  # rounding of a perfect association
+            tschuprowt = 1.0
 
     # updating association
     measurement.update({"tschuprowt_measure": tschuprowt})
